@@ -232,6 +232,10 @@ def enc_ncswan(p, seed):
     drad = [x * PI / 180.0 for x in d]                          # nautical coming-from, radians
     if p.get("radrange") == "-pi_pi":
         drad = [x - 2 * PI if x > PI else x for x in drad]
+    elif p.get("radrange") == "pi2_5pi2":          # one turn starting at pi/2: values reach beyond 2 pi
+        drad = [x + 2 * PI if x < PI / 2 else x for x in drad]
+    elif p.get("radrange") == "-5pi2_-pi2":        # one turn ending at -pi/2: values below -2 pi
+        drad = [x - 2 * PI if x < 1.5 * PI else x - 4 * PI for x in drad]
     per_rad = E * (180.0 / PI)
     dv = {"density": (("time", "points", "frequency", "direction"), _arr(per_rad, dt, bk),
                       {"units": "m2 s rad-1", "standard_name": "sea_surface_wave_directional_variance_spectral_density"})}
@@ -807,7 +811,7 @@ def cases(tier, seed):
                                 if kind == "ww3":
                                     p.update(opt=WW3_OPT + ["cur"], lonlat=LONLAT[n % 3])
                                 elif kind == "ncswan":
-                                    p.update(opt=SWAN_OPT + ["xcur"], lonlat=LONLAT[n % 3], radrange=["0_2pi", "-pi_pi"][n % 2])
+                                    p.update(opt=SWAN_OPT + ["xcur"], lonlat=LONLAT[n % 3], radrange=["0_2pi", "-pi_pi", "pi2_5pi2", "-5pi2_-pi2"][n % 4])
                                 else:
                                     p.update(opt=WWM_OPT + ["HS"], acdims=["freq_first", "dir_first"][n % 2])
                                 out.append(p)
@@ -839,7 +843,7 @@ def cases(tier, seed):
                         out.append(dict(fam="options", kind="ww3", nt=nt, ns=ns, nf=nf, nd=nd, order=order, dtype=dtype, pattern="ramp",
                                         backing=bk, opt=opt, lonlat=ll, wrot=3))
                     for opt in powerset(SWAN_OPT):
-                        for rr in ("0_2pi", "-pi_pi"):
+                        for rr in ("0_2pi", "-pi_pi", "pi2_5pi2", "-5pi2_-pi2"):
                             out.append(dict(fam="options", kind="ncswan", nt=nt, ns=ns, nf=nf, nd=nd, order=order, dtype=dtype, pattern="ramp",
                                             backing=bk, opt=opt, lonlat=ll, radrange=rr, wrot=5))
                 for opt in powerset(WWM_OPT + ["HS"]):
